@@ -23,16 +23,10 @@ size_t nondet_size_t(void);
 long nondet_long(void);
 extern int g_lib_fail;
 
-/* ghost: what was pushed for the tracked JWK member (its decoded bytes are g_jwk_tracked_bin) */
-const void *g_jwk_tracked_bin;		/* set by the abstract jwt_base64uri_decode when it decodes the tracked member's string */
-const char *g_push_name_of_tracked;	/* the OSSL parameter name the tracked member's value was pushed under (NULL: not pushed) */
-int g_push_count;			/* number of parameters pushed */
-const char *g_pkey_type_name;		/* "RSA" / "RSA-PSS" / "EC" / "ED25519" / "ED448" requested from EVP_PKEY_CTX_new_from_name */
-int g_fromdata_selection;		/* selection passed to EVP_PKEY_fromdata */
-size_t g_ossl_bits;			/* the bit count OpenSSL reports for the key it built */
-int g_pem_private;			/* 1: PEM_write_bio_PrivateKey was used, 0: PEM_write_bio_PUBKEY */
-const char *g_ec_point_curve;		/* curve name the EC point was built on */
-const void *g_ec_point_x, *g_ec_point_y;	/* BIGNUM sources of the affine coordinates */
+/* ghosts (defined in stubs/ghost.c, documented in contracts/jwk_parse_c.h) */
+extern const void *g_jwk_tracked_bin; extern const char *g_push_name_of_tracked; extern int g_push_count;
+extern const char *g_pkey_type_name; extern int g_fromdata_selection; extern size_t g_ossl_bits; extern int g_pem_private;
+extern const char *g_ec_point_curve; extern const void *g_ec_point_x, *g_ec_point_y;
 
 struct ossl_param_bld_st { int n; };
 struct bio_st { int dummy; };
